@@ -1,6 +1,6 @@
 SPECIFICATION Spec
 CONSTANTS
-  RichLeaves = FALSE
+  RichLeaves = TRUE
   MaxOps = 2
   PosOps = 1
 INVARIANTS
